@@ -650,7 +650,7 @@ KINDS = [('SetParent', 12), ('SetChildren', 9), ('SetLinks', 8), ('ChAppend', 9)
          ('ChMove', 8), ('ChSort', 4), ('ChReorder', 4), ('ChRemoveAll', 2), ('LnAppend', 5), ('LnRemove', 3),
          ('LnRemoveAll', 2), ('OpFloordiv', 9), ('OpShift', 7), ('LstShift', 5), ('LstSetParent', 2), ('LstSetChildren', 4), ('LstSetLinks', 4),
          ('WbsRemove', 2),
-         ('WbsRemoveAll', 2), ('SetEst', 1), ('SetPrio', 2), ('DeepLink', 5), ('SortNone', 3), ('Promote', 3), ('Diamond', 3), ('DeepUndo', 4), ('StaleList', 4), ('ReleaseReuse', 3)]
+         ('WbsRemoveAll', 2), ('SetEst', 1), ('SetPrio', 2), ('DeepLink', 5), ('SortNone', 3), ('Promote', 3), ('Diamond', 3), ('DeepUndo', 4), ('StaleList', 4), ('ReleaseReuse', 3), ('AdoptRootRemove', 3)]
 P_ILLEGAL = 0.43
 P_STALE = 0.21      # share of list calls that ASK for a pooled facade; ~15 % find one
 
@@ -1022,7 +1022,13 @@ class Gen:
             if r < 0.5 or not ids:
                 ids.append(rng.choice([i for i in self.ids + [self.unused_id] if i not in kid_ids] or [self.unused_id]))
             else:
-                ids.append(rng.choice(ids))
+                # an id named twice; judged by C05 on WBS.tasks, so mostly on the children of a WBS member / the roots
+                inw = [x for x in self.owners(V) if len(V.kids(x)) >= 2 and any(x in V.sub(r0) for r0 in V.wr)]
+                if inw and rng.random() < 0.7:
+                    o, k = rng.choice(inw), None
+                    kid_ids = [V.tid(x) for x in V.kids(o)]
+                    ids = rng.sample(kid_ids, rng.randint(1, len(kid_ids)))
+                ids.insert(rng.randint(0, len(ids)), rng.choice(ids))
         return ['ChReorder', o, ids], {'facade': k, 'v': rng.choice([None, 'tuple'])}
 
     def ids_arg(self, present):
@@ -1464,37 +1470,74 @@ class Gen:
         self.queue = [(['NewTask', V.tid(g), None, 'r', None], {}), (['ChAppend', r, n], dict(how, facade=None)), back]
         return first
 
-    def g_Diamond(self, V):
+    def g_AdoptRootRemove(self, V):
+        """aims at a ROOT task of a WBS that is adopted by another member of the same WBS through a children assignment
+        (=, +=, //) and is then taken out again (WBS.remove, list removal, left out of an assignment): afterwards it must
+        be gone from the WBS and report no owner"""
+        rng = self.rng
+        how = {'aim': 'adopt-root-remove'}
+        cands = []
+        for wi, r in enumerate(V.wr):
+            roots = V.kids(r)
+            for b in roots:
+                for a in V.sub(r)[1:]:
+                    if a != b and a not in V.sub(b) and V.ok_children(a, V.kids(a) + [b]):
+                        cands.append((wi, a, b))
+        if not cands:
+            return None
+        wi, a, b = rng.choice(cands)
+        r = rng.random()
+        if r < 0.4:
+            first = ['SetChildren', a, V.kids(a) + [b]], dict(how, form='list')
+        elif r < 0.7:
+            first = ['OpFloordiv', a, [b]], dict(how, form='list', v='iadd')
+        else:
+            first = ['OpFloordiv', a, [b]], dict(how, form=rng.choice(['list', 'single']), v=None)
+        r = rng.random()
+        if r < 0.45:
+            second = ['WbsRemove', wi, b], dict(how)
+        elif r < 0.75:
+            second = ['ChRemove', a, b], dict(how, facade=None)
+        else:
+            second = ['SetChildren', a, list(V.kids(a))], dict(how, form='list')
+        self.queue = [second]
+        return first
+
+    def g_Diamond(self, V, side=None):
         """aims at the dependency closure of a DIAMOND: t waits for [a, b, c] where a also waits for b (b is met twice and
-        is not the last one); then c is asked to wait for t - a cycle that must be rejected"""
+        is not the last one); then c is asked to wait for t - a cycle that must be rejected.  Mirrored on the successor
+        side in half of the episodes (t releases [a, b, c], a releases b; then c is asked to release t)."""
         rng = self.rng
         users = V.users()
-        how = {'aim': 'diamond'}
+        if side is None:
+            side = rng.random() < 0.5            # True: predecessor lists, False: successor lists
+        how = {'aim': 'diamond' if side else 'diamond-successors'}
+        rel = V.preds if side else V.succs
         for t in rng.sample(users, len(users)):
-            ps = V.preds(t)
+            ps = rel(t)
             if len(ps) >= 3:
                 for a in ps[:-1]:
-                    shared = [b for b in V.preds(a) if b in ps and ps.index(b) < len(ps) - 1]
+                    shared = [b for b in rel(a) if b in ps and ps.index(b) < len(ps) - 1]
                     if shared:
                         late = [c for c in ps[ps.index(shared[0]) + 1:] if c != a] or [ps[-1]]
                         c = rng.choice(late)
                         r = rng.random()
                         if r < 0.4:
-                            return ['LnAppend', True, c, t], how
+                            return ['LnAppend', side, c, t], how
                         if r < 0.7:
-                            return ['OpShift', False, t, [c]], how
-                        return ['SetLinks', True, c, V.preds(c) + [t]], how
+                            return ['OpShift', not side, t, [c]], how
+                        return ['SetLinks', side, c, rel(c) + [t]], how
         # build: three unrelated tasks a, b, c; a waits for b; t waits for a, b, c (in an order that keeps b early)
         free = [x for x in users if not V.preds(x) and not V.succs(x)]
         rng.shuffle(free)
         for t in free:
-            cand = [x for x in free if x != t and V.ok_links(True, t, [x])]
+            cand = [x for x in free if x != t and V.ok_links(side, t, [x])]
             if len(cand) >= 3:
                 a, b, c = cand[:3]
-                if V.ok_links(True, a, [b]):
+                if V.ok_links(side, a, [b]):
                     order = rng.choice([[a, b, c], [b, a, c], [a, b, c]])
-                    self.queue = [(['SetLinks', True, t, order], dict(how, form='list')), self.g_Diamond]
-                    return ['LnAppend', True, a, b], how
+                    self.queue = [(['SetLinks', side, t, order], dict(how, form='list')), lambda V2: self.g_Diamond(V2, side)]
+                    return ['LnAppend', side, a, b], how
         return None
 
     def g_DeepUndo(self, V):
